@@ -1,6 +1,8 @@
 import JunoModel.C18.ProofsRunner
 import JunoModel.C18.ProofsBlockTx
 import JunoModel.C18.ProofsSDL
+import JunoModel.C18.ProofsHS
+import JunoModel.C18.ProofsPipe
 /-!
 C18 — property theorems (statements only; helper lemmas are in `ProofsSV`, `ProofsRunner`,
 `ProofsBlockTx`). Every theorem in this module is an obligation listed in evidence/C18.json.
@@ -64,7 +66,7 @@ theorem applied_implies_complete_partial (cfg : Cfg) (d : Disk) (sts : List Star
 
 /-- One mandatory migration that blocks until cancellation (tick 3 = its `Migrate` call) and
 returns `(nil, wrapped ctx.Err())`. -/
-def l9Start : Start := ⟨[⟨false, false⟩], ⟨fun _ => ⟨false, none, .ctx⟩, 3, 999⟩⟩
+def l9Start : Start := ⟨[⟨false, false⟩], ⟨fun _ => ⟨false, none, .ctx⟩, 3, 999, 0⟩⟩
 def freshDisk : Disk := ⟨none, fun _ => none⟩
 
 /-- NEGATION of the full statement for the pinned runner, with witness: the bit is set although
@@ -112,7 +114,7 @@ theorem in_order_when_state_only_on_cancel (cfg : Cfg) (d : Disk) (st : Start)
   · have := hwb i s e false h; cases this
 
 /-- Two mandatory migrations; the first returns `(state, nil)` with a live context. -/
-def inProgStart : Start := ⟨[⟨false, false⟩, ⟨false, false⟩], ⟨fun i => if i = 0 then ⟨false, some [], .none⟩ else ⟨false, none, .none⟩, 999, 999⟩⟩
+def inProgStart : Start := ⟨[⟨false, false⟩, ⟨false, false⟩], ⟨fun i => if i = 0 then ⟨false, some [], .none⟩ else ⟨false, none, .none⟩, 999, 999, 0⟩⟩
 
 /-- Without that hypothesis the order can be broken (this is the runner's documented contract,
 runner_test.go "Migration with intermediate state", not a defect of a registered migration):
@@ -220,6 +222,34 @@ theorem blocktx_preserves (cfg : BlockTx.Cfg) (hA : cfg.overwriteMigrated = fals
   have hm := (migrate_done_allMigrated hA hB hw (attempts_inv hA hw att db hi).1 steps hd).2 b hb
   exact ⟨hm.2.2.2, by simp [oldView, hm.2.1, hm.2.2.1]⟩
 
+/-- CURRENT code (resume fix b4577f2 applied, `overwriteMigrated = false`; either variant of the
+final step). From every image satisfying `Inv` and under EVERY interruption pattern — cancellation,
+death with any subset of batches committed, failed batch writes — `Inv` is kept, an undisturbed
+rerun returns `(nil, nil)`, and whenever `Migrate` returns `(nil, nil)` every block WITH
+transactions reads through the current accessors as its original content with no old entry left;
+a block without transactions reads as the empty block or (the remaining known finding) as "not
+found". -/
+theorem blocktx_preserves_nonempty (cfg : BlockTx.Cfg) (hA : cfg.overwriteMigrated = false)
+    (orig : Orig) (h : Nat) (db : Db) (hw : WFOrig orig) (hi : Inv orig h db)
+    (att : List (List Step)) (steps : List Step) :
+    Inv orig h (attempts cfg db att) ∧
+    (migrate cfg (attempts cfg db att) []).2 = .done ∧
+    ((migrate cfg (attempts cfg db att) steps).2 = .done → ∀ b, b ≤ h →
+      (orig b ≠ ([], []) → view ((migrate cfg (attempts cfg db att) steps).1.blk b) = some (orig b) ∧
+        oldView ((migrate cfg (attempts cfg db att) steps).1.blk b) = ([], [])) ∧
+      (orig b = ([], []) → view ((migrate cfg (attempts cfg db att) steps).1.blk b) = none ∨
+        view ((migrate cfg (attempts cfg db att) steps).1.blk b) = some ([], []))) := by
+  have ha := (attempts_inv hA hw att db hi).1
+  refine ⟨ha, migrate_uninterrupted_any hA hw ha, ?_⟩
+  intro hd b hb
+  have hm := (migrate_done_any hA hw ha steps hd).2 b hb
+  refine ⟨fun hne => ?_, fun he => ?_⟩
+  · have := hm.1 hne
+    exact ⟨this.2.2.2, by simp [oldView, this.2.1, this.2.2.1]⟩
+  · rcases hm.2 he with m | u
+    · right; rw [← he]; exact m.2.2.2
+    · left; exact u.2.2.2
+
 /-- PARTIAL (pinned migration). What is missing from `blocktx_preserves`: (a) interruptions are
 restricted to cancellation (`Graceful`: no crash — after a crash an already migrated range can lie
 behind an unmigrated one and is overwritten, see `blocktx_resume_overwrites_pinned`); (b) only
@@ -284,13 +314,13 @@ during one `Migrate` call (cancelled after any number of blocks, death with any 
 handed-out blocks committed): only `StateDiffLength` of retained blocks changes, and only to the
 block's state-diff length; the checkpoint the runner keeps afterwards is sound (every retained
 block below it is backfilled — after a death that is the OLD checkpoint); `(nil, nil)` means every
-retained block is backfilled; the migration never fails. -/
+retained block is backfilled; the migration fails only when a batch write fails. -/
 theorem statedifflength_checkpoint_sound (db : SDL.Db) (h o next : Nat) (hr : SDL.Retained db h o)
     (hg : SDL.Good db o next) (st : SDL.Step) :
     SDL.Step' db (SDL.migrate db next st).1 o h ∧
     SDL.Good (SDL.migrate db next st).1 o (SDL.nextCheckpoint next (SDL.migrate db next st).2) ∧
     ((SDL.migrate db next st).2 = .done → SDL.Good (SDL.migrate db next st).1 o (h + 1)) ∧
-    (SDL.migrate db next st).2 ≠ .failed :=
+    ((SDL.migrate db next st).2 = .failed → ∃ e sel, st = .writeFail e sel) :=
   SDL.migrate_sound hr hg st
 
 /-- Any sequence of interrupted `Migrate` calls (the runner threading the checkpoint) followed by an
@@ -303,10 +333,63 @@ theorem statedifflength_resume_same_result (db : SDL.Db) (h o next : Nat) (hr : 
       SDL.backfilled db o h :=
   SDL.resume_sdl hr hg steps
 
+/-! ## The pipeline every migration is built on -/
+
+/-- Every observed run of a pipeline stage that the acceptor `Pipe.valid` admits (the harness feeds it
+the runs of the REAL `pipeline.Source` / `pipeline.New` under cancellation at every point and stage
+errors) delivers each handed-out item to exactly one worker exactly once and nothing else, in
+hand-out order within each worker; the items processed are exactly the first `sent` ones (a prefix
+of the source sequence — for a later stage: everything the previous stage sent, cancellation or
+not); and the source reports "done" iff nothing was cut off. This is what the migration models
+assume of a pass ("everything emitted is ingested and committed; a cancelled pass is a prefix"). -/
+theorem pipeline_delivers_exactly_once (conc : Nat) (o : Pipe.Obs) (h : Pipe.valid conc o = true) :
+    (Pipe.all o).Nodup ∧ (∀ i, i ∈ Pipe.all o ↔ i < o.sent) ∧
+    (∀ w ∈ o.perWorker, w.Pairwise (· < ·)) ∧ (o.isDone = true ↔ o.sent = o.n) ∧ o.sent ≤ o.n ∧
+    (∀ c ∈ o.doneCalls, c = 1) := by
+  obtain ⟨_, h2, h3, h4, _, _, h7, _⟩ := Pipe.valid_parts h
+  exact ⟨Pipe.nodup_of_valid h, Pipe.mem_iff_of_valid h, fun w hw => Pipe.sortedAsc_pairwise w (h4 w hw), h3, h2, h7⟩
+
+/-! ## The head-state consolidation -/
+
+/-- For every set of contracts (class hash, optional nonce, deployment height), from every image in
+which each account is untouched or has exactly its consolidated record with any of its deprecated
+fields already wiped (`HS.Inv`: the previous-layout database and every crash image), and whatever
+happens during one `Migrate` call (cancelled after any number of addresses, death or failed batch
+write with any subset committed, death or failure after 0, 1 or 2 of the three bucket wipes): the
+invariant is kept — no account ever loses a field before its record exists — and `(nil, nil)`
+means every account has its record and the deprecated buckets are empty. -/
+theorem headstate_sound (orig : Nat → HS.OrigA) (db : HS.Db) (hi : HS.Inv orig db) (st : HS.Step) :
+    HS.Inv orig (HS.migrate db st).1 ∧ (HS.migrate db st).1.n = db.n ∧
+    ((HS.migrate db st).2 = .done → HS.Done orig (HS.migrate db st).1) ∧
+    (∀ a, db.n ≤ a → (HS.migrate db st).1.acct a = db.acct a) :=
+  HS.migrate_sound hi st
+
+/-- Any interruption sequence followed by an undisturbed rerun returns `(nil, nil)` with exactly
+the fully migrated database, the one an undisturbed run produces. -/
+theorem headstate_resume_same_result (orig : Nat → HS.OrigA) (db : HS.Db) (hi : HS.Inv orig db)
+    (steps : List HS.Step) :
+    (HS.migrate (HS.attempts db steps) (.pass none)).2 = .done ∧
+    (HS.migrate (HS.attempts db steps) (.pass none)).1 = HS.migrated orig db :=
+  HS.resume_hs hi steps
+
+/-- Two contracts in the previous layout, the second without a nonce entry. -/
+def hsDb : HS.Db := ⟨2, fun a => if a = 0 then ⟨some 7, some 3, some 1, none⟩ else ⟨some 8, none, some 2, none⟩⟩
+def hsOrig : Nat → HS.OrigA := fun a => if a = 0 then ⟨7, some 3, 1⟩ else ⟨8, none, 2⟩
+
 /-- A pruned prefix (blocks 0–1 without records), blocks 2–5 retained, nothing backfilled yet. -/
 def sdlDb : SDL.Db := ⟨some 5, fun b => if b < 2 then ⟨false, 0, 0⟩ else ⟨true, b + 1, 0⟩⟩
 
 /-! ## Non-vacuity -/
+
+-- a cancelled 2-worker run: 3 of 5 items handed out
+example : Pipe.valid 2 ⟨5, 3, false, [[0, 2], [1]], [1, 1]⟩ = true := by decide
+example : Pipe.valid 2 ⟨5, 3, false, [[0, 2], [1, 2]], [1, 1]⟩ = false := by decide
+
+example : HS.Inv hsOrig hsDb := by
+  intro a ha
+  have : a = 0 ∨ a = 1 := by have : a < 2 := ha; omega
+  rcases this with rfl | rfl <;> (left; simp [hsDb, hsOrig])
+example : (HS.migrate hsDb (.crashWipe 1)).1.acct 1 = ⟨none, none, some 2, some (0, 8, 2)⟩ := by decide
 
 example : SDL.Retained sdlDb 5 2 := by
   refine ⟨rfl, by decide, ?_⟩
@@ -330,7 +413,7 @@ example : view ((migrate BlockTx.Cfg.fixed leadingEmptyDb []).1.blk 0) = some ([
 example : ((attempts BlockTx.Cfg.fixed leadingEmptyDb [[.crash none [true]]]).blk 10).blob = some ([1], [101]) ∧
     ((attempts BlockTx.Cfg.fixed leadingEmptyDb [[.crash none [true]]]).blk 0).blob = none := by decide
 -- an undisturbed environment exists, and the repaired runner refuses the unknown-last witness
-example : Env.Undisturbed ⟨fun _ => ⟨false, none, .none⟩, 999, 999⟩ := ⟨fun _ => rfl, by decide, by decide⟩
+example : Env.Undisturbed ⟨fun _ => ⟨false, none, .none⟩, 999, 999, 0⟩ := ⟨fun _ => rfl, by decide, by decide, rfl⟩
 example : newRunner Cfg.fixed [⟨false, false⟩, ⟨false, false⟩] ⟨some ⟨3#64, 7#64⟩, fun _ => none⟩ ≠ .ok := by decide
 -- the repaired runner does not mark the L9 witness as applied
 example : (starts Cfg.fixed freshDisk [l9Start]).1.cur.has 0 = false := by decide
